@@ -5,7 +5,7 @@ Reads the *source text* (by AST; nothing is imported or executed) of the state c
 interlocks, the validation order and the "validate, then commit" discipline that properties C02, C03, C05, C06 and C07
 rest on, and writes every setter / check method as a Lean function
 
-    GState.<method> (self : GState) (args…) : Except Err GState
+    GState.<method> (self : GState) (args…) : GState × Option Err      -- the state when the method returned or raised, and the exception class
 
 over a structure with one field per `__slots__` entry.  `Props/StateTie.lean` then proves that the hand-written
 builder model's state transitions are exactly these functions (for every state and argument), so a change to the
@@ -293,7 +293,7 @@ class Translator:
                 args = self._call_args(c, self.methods[fn.attr], env)
                 nxt = self._fresh(env)
                 env2 = dict(env, **{"$self": nxt})
-                return (f"{ind}match GState.{fn.attr} {cur}{args} with\n{ind}| .error e => .error e\n{ind}| .ok {nxt} =>\n"
+                return (f"{ind}match GState.{fn.attr} {cur}{args} with\n{ind}| ({nxt}, some e) => ({nxt}, some e)\n{ind}| ({nxt}, none) =>\n"
                         + self.block(rest, env2, depth + 1, k))
             if isinstance(fn, ast.Attribute) and self._is_self_attr(fn.value) and fn.value.attr == "_user_bounds" and fn.attr == "validate":
                 if len(c.args) != 2 or not (isinstance(c.args[0], ast.Constant) and isinstance(c.args[0].value, str)):
@@ -302,7 +302,7 @@ class Translator:
                 prim = {"Val": "validateNum", "Int": "validateInt", "Pt": "validatePt"}.get(ty)
                 if prim is None:
                     fail(st, f"validate() of a {ty}")
-                return (f"{ind}match {prim} {cur}._user_bounds \"{c.args[0].value}\" {t} with\n{ind}| .error e => .error e\n{ind}| .ok _ =>\n"
+                return (f"{ind}match {prim} {cur}._user_bounds \"{c.args[0].value}\" {t} with\n{ind}| .error e => ({cur}, some e)\n{ind}| .ok _ =>\n"
                         + self.block(rest, env, depth + 1, k))
             fail(st, f"statement {ast.unparse(st)}")
         if isinstance(st, ast.Raise):
@@ -310,7 +310,7 @@ class Translator:
             name = exc.func.id if isinstance(exc, ast.Call) and isinstance(exc.func, ast.Name) else None
             if name not in ERRORS:
                 fail(st, f"raise {ast.unparse(st)}")
-            return f"{ind}.error .{ERRORS[name]}\n"
+            return f"{ind}({cur}, some .{ERRORS[name]})\n"
         if isinstance(st, ast.If):
             t, ty = self.expr(st.test, env, "Bool")
             self._need(st, ty, "Bool")
@@ -318,7 +318,7 @@ class Translator:
             return (f"{ind}if {t} then\n" + self.block(list(st.body) + rest, env, depth + 1, k) + f"{ind}else\n"
                     + self.block(list(st.orelse) + rest, env, depth + 1, k))
         if isinstance(st, ast.Return) and st.value is None:
-            return f"{ind}.ok {cur}\n"
+            return f"{ind}({cur}, none)\n"
         fail(st, f"statement {ast.unparse(st)[:60]}")
 
     def _fresh(self, env):
@@ -367,10 +367,10 @@ class Translator:
             ty = self.lean_type(p.annotation, m)
             sig += f" ({p.arg} : {ty})"
             env[p.arg] = ty
-        body = self.block(m.body, env, 1, lambda e, d: "  " * d + f".ok {e['$self']}\n")
+        body = self.block(m.body, env, 1, lambda e, d: "  " * d + f"({e['$self']}, none)\n")
         # re-indent the continuation of nested matches is already handled by depth
         doc = f"/-- `GState.{m.name}` (source line {m.lineno}) -/\n"
-        return doc + f"def GState.{m.name} (self : GState){sig} : Except Err GState :=\n" + body
+        return doc + f"def GState.{m.name} (self : GState){sig} : GState × Option Err :=\n" + body
 
     # ---------------------------------------------------------------- whole file
     def render(self):
@@ -460,9 +460,9 @@ class Translator:
             lines.append(f"  {s} := {fields.get(s, 'default')}")
         lines.append("")
         lines.append("/-- `GState.__init__`: the setter calls, in source order, from the blank state -/")
-        lines.append("def GState.init : Except Err GState :=")
+        lines.append("def GState.init : GState × Option Err :=")
         env = {"$self": "GState.blank", "$n": [0]}
-        lines.append(self.block(calls, env, 1, lambda e, d: "  " * d + f".ok {e['$self']}\n"))
+        lines.append(self.block(calls, env, 1, lambda e, d: "  " * d + f"({e['$self']}, none)\n"))
         return "\n".join(lines)
 
 
